@@ -1616,7 +1616,25 @@ def c20_fixed_probes(prop, tier, sc, rep):
                 sig = {"class": "decorator-form-unpicklable"} if name == "decorated" and "not the same object" in str(e) \
                     else {"probe": name, "error": type(e).__name__}
                 rep.violation(sig, {"kind": "pickle-probe", "name": name, "proto": proto, "error": "%s: %s" % (type(e).__name__, e)})
-    return 0, 0, n, 2
+    # outside the families (their graphs are acyclic): an overload implemented on a derivative of the dataset it is
+    # registered on.  The copy must behave like the original under every dispatch value.
+    src = picklelib.cyc_src
+    for proto in range(pickle.HIGHEST_PROTOCOL + 1):
+        n += 1
+        try:
+            cp = pickle.loads(pickle.dumps(src, protocol=proto))
+        except Exception as e:  # noqa
+            rep.violation({"probe": "cyclic-overload", "error": type(e).__name__},
+                          {"kind": "pickle-probe", "name": "cyc_src", "proto": proto, "error": "%s: %s" % (type(e).__name__, e)})
+            continue
+        for o in ({"SOURCE": "smoothed"}, {"SOURCE": "raw"}, {}, {"SOURCE": "other"}):
+            a, b = observe.call(lambda: cp.evaluate(dict(o)), lab), observe.call(lambda: src.evaluate(dict(o)), lab)
+            if not same_outcome(a, b):
+                rep.violation({"probe": "cyclic-overload", "o": o},
+                              {"kind": "pickle-probe", "name": "cyc_src", "proto": proto,
+                               "error": "under %s the copy gives %s, the original %s" % (o, observe.describe(a), observe.describe(b))})
+                break
+    return 0, 0, n, 3
 
 
 def recovered_failure_probes(prop, tier, sc, rep):
